@@ -190,6 +190,7 @@ class Exec:
 
     def find_method(self, cls, name):
         for c in self.mro(cls):
+            if c + '.' + name + '@call' in CONTRACTS: return c + '.' + name + '@call'      # call-site view of a contract verified elsewhere
             if c + '.' + name in CONTRACTS: return c + '.' + name
         return None
 
@@ -971,8 +972,8 @@ class Exec:
                 outs = nxt
             return [Outcome('normal', o.state) if o.kind == 'break' else o for o in outs]
         self.ctx.iter_raises = []
-        if isinstance(it, VRef) and self.find_method(it.cls, '__iter__'):
-            c = CONTRACTS[self.find_method(it.cls, '__iter__')]
+        if isinstance(it, VRef) and (self.find_method(it.cls, '__iter__@for') or self.find_method(it.cls, '__iter__')):
+            c = CONTRACTS[self.find_method(it.cls, '__iter__@for') or self.find_method(it.cls, '__iter__')]
             it = self.apply_contract(c, [it], {}, st, s)       # ghost list of yielded chunks
             self.ctx.iter_raises = c.next_raises
         if isinstance(it, lib.VRange):
@@ -1045,7 +1046,7 @@ class Exec:
         mod_names, mod_fields = self.modified(s)
         h = st.fork()
         for n in mod_names:
-            if n in h.env and not isinstance(h.env[n], (VFunc, VMod)):
+            if n in h.env and not isinstance(h.env[n], (VFunc, VMod)) and type(h.env[n]).__name__ not in ('VFile', 'VCtx', 'VConst'):
                 v = fresh(n, h.env[n].ty); h.pc += wf(v); alloc_bound(h, v); h.env[n] = v
         precise = self.precise_field_stores(s, mod_names, st)
         for fld in mod_fields:
